@@ -21,7 +21,9 @@ theorem accessor_table :
     lookupAccessor Generated.macroAccessors "null" = some "as_null" ∧
     lookupAccessor Generated.macroAccessors "Json" = some "identity" ∧
     lookupAccessor Generated.macroAccessors "String" = none ∧
-    lookupAccessor Generated.macroAccessors "Vec" = none := by decide
+    lookupAccessor Generated.macroAccessors "Vec" = none ∧
+    lookupAccessor Generated.macroAccessors "u32" = none ∧
+    lookupAccessor Generated.macroAccessors "i32" = none := by decide
 
 /-- every shape fact of the expansion that the model relies on was recognised in the source -/
 theorem expansion_shape :
@@ -33,6 +35,24 @@ theorem expansion_shape :
     Generated.macro_resultDerived = true := by decide
 
 /-! ### conversion to the declared type: right JSON type ⇒ the value, wrong type ⇒ none (never a default) -/
+
+/-- a serde integer type narrower than the JSON number: a value outside its range is NOT converted (so it is a type mismatch,
+    never a wrapped value) -/
+theorem conv_u32 (x : Json) : asJsonValue .tSerdeU32 x =
+    (match x with | .num (.pos k) => if k < 2 ^ 32 then some (.num (.pos k)) else none | _ => none) := by
+  match x with
+  | .num n => cases n <;> simp [asJsonValue, asJsonValueWith, lookupAccessor, Generated.macroAccessors, TyTok.token, fromValue]
+  | .null | .bool _ | .str _ | .arr _ | .obj _ => simp [asJsonValue, asJsonValueWith, lookupAccessor, Generated.macroAccessors, TyTok.token, fromValue]
+
+theorem conv_i32 (x : Json) : asJsonValue .tSerdeI32 x =
+    (match x with
+     | .num (.pos k) => if k < 2 ^ 31 then some (.num (.pos k)) else none
+     | .num (.neg k) => if k ≤ 2 ^ 31 then some (.num (.neg k)) else none
+     | _ => none) := by
+  match x with
+  | .num n => cases n <;> simp [asJsonValue, asJsonValueWith, lookupAccessor, Generated.macroAccessors, TyTok.token, fromValue]
+  | .null | .bool _ | .str _ | .arr _ | .obj _ => simp [asJsonValue, asJsonValueWith, lookupAccessor, Generated.macroAccessors, TyTok.token, fromValue]
+
 
 theorem conv_str (x : Json) : asJsonValue .tStr x = (match x with | .str s => some (.str s) | _ => none) := by
   cases x <;> simp [asJsonValue, asJsonValueWith, lookupAccessor, Generated.macroAccessors, TyTok.token, applyAccessor]
